@@ -37,6 +37,25 @@ def run(rep):
     if len(outer) != 1:
         raise AnalysisError(f"{file}: point loop not found")
     outer = outer[0]
+    # the counts the kernel receives are the extents of its loops: a change of `nvertices` / `npoints` inside the kernel drops a vertex (and
+    # the two edges that meet there) or a point, unless it only skips an exact duplicate of the first vertex at the end of the list
+    wr_ = cnorm.writes(fn["body"])[0]
+    for cnt_ in ("nvertices", "npoints"):
+        if cnt_ not in wr_:
+            rep.proved("R15.b", file, "c_inside", f"`{cnt_}` is used as received (never assigned in the kernel)", line=fn["line"])
+            continue
+        okdup = False
+        try:
+            pce = cq.evaluate(cq.preceding(top, outer))
+            ch = [f_ for f_ in pce.finals if f_[2] == "end" and cnt_ in f_[0] and not cq.same_expr(f_[0][cnt_], cnt_)]
+            okdup = cnt_ == "nvertices" and bool(ch) and all(cq.same_expr(f_[0][cnt_], "nvertices - 1") and
+                                                              cq.holds(f_[1], "polygon[0] == polygon[2*nvertices-2]", True) and
+                                                              cq.holds(f_[1], "polygon[1] == polygon[2*nvertices-1]", True) for f_ in ch)
+        except Undecided:
+            okdup = False
+        rep.check(okdup, "R15.b", file, "c_inside", f"`{cnt_}` is used as received, or reduced by one only when the last vertex repeats the first in BOTH coordinates",
+                  f"`{cnt_}` is assigned inside the kernel under a condition that does not establish that: a vertex list whose last vertex merely shares one coordinate with "
+                  "the first loses that vertex", line=fn["line"])
     olr = cq.loop_range(outer, cq.preceding(top, outer))
     pv = olr["var"] if olr else loop_var(outer)
     ostm = body_stmts(loop_parts(outer)[3])
